@@ -7,12 +7,16 @@
 //!   * all entry points agree on the same text;
 //!   * an accepted text re-formats to its canonical form, a formatted value parses back to itself.
 
-use emit::{SpanId, TraceId, Value};
+use emit::{SpanId, Timestamp, TraceId, Value};
+use std::time::Duration;
 use emit_traceparent::{TraceFlags, Traceparent};
 use hcommon::{catch, Rng, Sexp, Stream, Tier};
 
 pub fn streams() -> Vec<Stream> {
-    vec![Stream { name: "c15_hex", gen: gen_hex, run: run_hex }]
+    vec![
+        Stream { name: "c15_hex", gen: gen_hex, run: run_hex },
+        Stream { name: "c15_ts", gen: gen_ts, run: run_ts },
+    ]
 }
 
 // ------------------------------------------------------------------ outcomes and oracles
@@ -609,6 +613,370 @@ fn gen_hex(rng: &mut Rng, tier: Tier, n: usize) -> Vec<String> {
                     _ => Sexp::tagged("int", vec![Sexp::atom("i128"), Sexp::num(random_u128(rng) as i128)]),
                 };
                 out.push(Sexp::tagged(tag, vec![v]).to_string());
+            }
+        }
+    }
+    out
+}
+
+// ------------------------------------------------------------------ c15_ts: running
+
+const NANOS: u128 = 1_000_000_000;
+const MAX_SECS: u64 = 253402300799;
+const MAX_NS: u128 = MAX_SECS as u128 * NANOS + 999_999_999;
+
+fn ts_of_ns(t: u128) -> Option<Timestamp> {
+    Timestamp::from_unix(Duration::new(u64::try_from(t / NANOS).ok()?, (t % NANOS) as u32))
+}
+
+fn ns_of_ts(ts: &Timestamp) -> u128 {
+    ts.to_unix().as_nanos()
+}
+
+fn show_ns(t: &u128) -> String {
+    format!("{}.{}", t / NANOS, t % NANOS)
+}
+
+/// Every entry point that turns a text into a `Timestamp`.
+fn parse_ts(bytes: &[u8]) -> String {
+    let s = match std::str::from_utf8(bytes) {
+        Ok(s) => s,
+        Err(_) => return "bad-case".into(),
+    };
+    let mut v = Verdict::new();
+    v.add("from_str", Out::of_result(|| s.parse::<Timestamp>().map(|t| ns_of_ts(&t))));
+    v.add("try_from_str", Out::of_result(|| Timestamp::try_from_str(s).map(|t| ns_of_ts(&t))));
+    v.add("parse", Out::of_result(|| Timestamp::parse(s).map(|t| ns_of_ts(&t))));
+    v.add("parse(Display)", Out::of_result(|| Timestamp::parse(Disp(s)).map(|t| ns_of_ts(&t))));
+    v.add("cast(str)", Out::of_option(|| Value::from(s).cast::<Timestamp>().map(|t| ns_of_ts(&t))));
+    let d = Disp(s);
+    v.add("cast(display)", Out::of_option(|| Value::from_display(&d).cast::<Timestamp>().map(|t| ns_of_ts(&t))));
+    if let Out::Ok(_) = &v.outs[0].1 {
+        // the documented grammar: DDDD-DD-DDTDD:DD:DD[.D{1,9}]Z
+        let b = s.as_bytes();
+        let shape = b.len() >= 20
+            && b.len() <= 30
+            && b.len() != 21
+            && b.iter().enumerate().all(|(i, c)| match i {
+                4 | 7 => *c == b'-',
+                10 => *c == b'T',
+                13 | 16 => *c == b':',
+                i if i == b.len() - 1 => *c == b'Z',
+                19 => *c == b'.',
+                _ => c.is_ascii_digit(),
+            });
+        if !shape {
+            v.fail("accepted-text-outside-the-grammar");
+        }
+    }
+    if let Out::Ok(t) = &v.outs[0].1 {
+        // an accepted instant is in range and survives its own full-precision text
+        match ts_of_ns(*t) {
+            None => v.fail("accepted-instant-out-of-range"),
+            Some(ts) => {
+                let back = catch(|| ts.to_string().parse::<Timestamp>().ok().map(|t| ns_of_ts(&t)));
+                if back != Some(Some(*t)) {
+                    v.fail(format!("accepted-instant-does-not-roundtrip:{:?}", back));
+                }
+            }
+        }
+    }
+    v.finish(show_ns)
+}
+
+fn fmt_prec(ts: &Timestamp, prec: Option<usize>) -> String {
+    match prec {
+        None => format!("{}", ts),
+        Some(p) => format!("{:.*}", p, ts),
+    }
+}
+
+fn truncate(t: u128, prec: Option<usize>) -> u128 {
+    let p = prec.unwrap_or(9).min(9) as u32;
+    t - t % 10u128.pow(9 - p)
+}
+
+fn prec_of(s: &Sexp) -> Option<Option<usize>> {
+    if s.as_atom()? == "none" {
+        Some(None)
+    } else {
+        Some(Some(s.as_usize()?))
+    }
+}
+
+fn run_ts(line: &str) -> String {
+    (|| -> Option<String> {
+        let s = Sexp::parse(line)?;
+        let (tag, a) = s.as_tagged()?;
+        Some(match (tag, a.len()) {
+            ("parse", 1) => parse_ts(&a[0].as_bytes()?),
+            ("fmt", 2) => {
+                let prec = prec_of(&a[0])?;
+                let t = a[1].as_u128()?;
+                let ts = ts_of_ns(t)?;
+                let text = match catch(|| fmt_prec(&ts, prec)) {
+                    Some(t) => t,
+                    None => return Some("panic\tFAIL:formatter-panicked".into()),
+                };
+                let mut fails = Vec::new();
+                let back = parse_ts(text.as_bytes());
+                let want = format!("ok({})", show_ns(&truncate(t, prec)));
+                if back != want {
+                    fails.push(format!("roundtrip:parse({})={},want={}", text, back, want));
+                }
+                // Debug is the quoted Display; Value::capture_display / from_any keep the instant
+                if format!("{:?}", ts) != format!("\"{}\"", ts) {
+                    fails.push("debug-differs".to_string());
+                }
+                if Value::from_any(&ts).cast::<Timestamp>() != Some(ts) {
+                    fails.push("typed-cast".to_string());
+                }
+                with_fail(Sexp::str(&text).to_string(), fails)
+            }
+            ("ord", 3) => {
+                let prec = prec_of(&a[0])?;
+                let (ta, tb) = (a[1].as_u128()?, a[2].as_u128()?);
+                let (x, y) = (ts_of_ns(ta)?, ts_of_ns(tb)?);
+                let (fx, fy) = (fmt_prec(&x, prec), fmt_prec(&y, prec));
+                let got = fx.as_bytes().cmp(fy.as_bytes());
+                let want = truncate(ta, prec).cmp(&truncate(tb, prec));
+                let show = |o: std::cmp::Ordering| match o {
+                    std::cmp::Ordering::Less => "lt",
+                    std::cmp::Ordering::Equal => "eq",
+                    std::cmp::Ordering::Greater => "gt",
+                };
+                let mut fails = Vec::new();
+                if got != want {
+                    fails.push(format!("text-order-{}-but-instants-{}", show(got), show(want)));
+                }
+                if (x.cmp(&y)) != ta.cmp(&tb) {
+                    fails.push("timestamp-ord".to_string());
+                }
+                with_fail(show(got).to_string(), fails)
+            }
+            ("to-parts", 1) => {
+                let t = a[0].as_u128()?;
+                let ts = ts_of_ns(t)?;
+                let p = match catch(|| ts.to_parts()) {
+                    Some(p) => p,
+                    None => return Some("panic\tFAIL:to_parts-panicked".into()),
+                };
+                let mut fails = Vec::new();
+                let back = catch(|| Timestamp::from_parts(p));
+                if back != Some(Some(ts)) {
+                    fails.push(format!("calendar-roundtrip:{:?}", back.map(|o| o.map(|t| ns_of_ts(&t)))));
+                }
+                with_fail(
+                    format!("({} {} {} {} {} {} {})", p.years, p.months, p.days, p.hours, p.minutes, p.seconds, p.nanos),
+                    fails,
+                )
+            }
+            ("from-parts", 7) => {
+                let p = emit::timestamp::Parts {
+                    years: u16::try_from(a[0].as_u64()?).ok()?,
+                    months: u8::try_from(a[1].as_u64()?).ok()?,
+                    days: u8::try_from(a[2].as_u64()?).ok()?,
+                    hours: u8::try_from(a[3].as_u64()?).ok()?,
+                    minutes: u8::try_from(a[4].as_u64()?).ok()?,
+                    seconds: u8::try_from(a[5].as_u64()?).ok()?,
+                    nanos: u32::try_from(a[6].as_u64()?).ok()?,
+                };
+                match catch(|| Timestamp::from_parts(p)) {
+                    None => "panic".into(),
+                    Some(None) => "none".into(),
+                    Some(Some(ts)) => format!("ok({})", show_ns(&ns_of_ts(&ts))),
+                }
+            }
+            _ => return None,
+        })
+    })()
+    .unwrap_or_else(|| "bad-case".into())
+}
+
+// ------------------------------------------------------------------ c15_ts: generating
+
+const TS_ALPHABET: &[&str] =
+    &["0", "1", "5", "9", "-", ":", "T", "Z", ".", "+", " ", "t", "z", "/", ";", "é", "٣", "０", "x", ","];
+const TS_BYTES: &[u8] = b"0123456789-:TZ.+ ";
+
+/// seconds since the epoch of `y-m-d` (proleptic Gregorian; generator-side only, used to aim at interesting days)
+fn days_from_civil(y: i64, m: i64, d: i64) -> i64 {
+    let y = if m <= 2 { y - 1 } else { y };
+    let era = if y >= 0 { y } else { y - 399 } / 400;
+    let yoe = y - era * 400;
+    let doy = (153 * (if m > 2 { m - 3 } else { m + 9 }) + 2) / 5 + d - 1;
+    let doe = yoe * 365 + yoe / 4 - yoe / 100 + doy;
+    era * 146097 + doe - 719468
+}
+
+fn interesting_instant(rng: &mut Rng) -> u128 {
+    let secs: u64 = match rng.below(10) {
+        0 => *rng.pick(&[0u64, 1, 59, 60, 3599, 3600, 86399, 86400, MAX_SECS, MAX_SECS - 1, MAX_SECS - 86400]),
+        1 | 2 => {
+            // around the end of February / start of March / year ends of interesting years
+            let y = *rng.pick(&[1970i64, 1971, 1972, 1999, 2000, 2001, 2004, 2037, 2038, 2039, 2096, 2099, 2100, 2101, 2104,
+                2199, 2200, 2300, 2399, 2400, 2401, 4000, 8000, 9996, 9999]);
+            let (m, d) = *rng.pick(&[(1i64, 1i64), (1, 31), (2, 1), (2, 28), (3, 1), (12, 31), (6, 30), (7, 1), (10, 31), (11, 1)]);
+            let day = days_from_civil(y, m, d) + rng.below(3) as i64 - 1;
+            let s = day * 86400 + *rng.pick(&[0i64, 1, 86399, 43200]);
+            s.clamp(0, MAX_SECS as i64) as u64
+        }
+        3 => {
+            // a random day at the edges of the day
+            rng.below(2932897) * 86400 + *rng.pick(&[0u64, 86399, 3600 * 23, 59, 60])
+        }
+        _ => rng.below(MAX_SECS + 1),
+    };
+    let nanos: u64 = match rng.below(6) {
+        0 => 0,
+        1 => 999_999_999,
+        2 => 10u64.pow(rng.below(9) as u32) * rng.range(1, 9),
+        3 => rng.below(1000) * 10u64.pow(rng.below(7) as u32),
+        _ => rng.below(1_000_000_000),
+    };
+    secs as u128 * NANOS + nanos as u128
+}
+
+fn random_prec(rng: &mut Rng) -> Sexp {
+    match rng.below(12) {
+        0 => Sexp::atom("none"),
+        1 => Sexp::num(*rng.pick(&[10usize, 12, 20, 100])),
+        _ => Sexp::num(rng.below(10)),
+    }
+}
+
+fn fmt_text(t: u128, prec: Option<usize>) -> String {
+    // generator-side text of an instant: from the real formatter where that works, else assembled from
+    // to_parts (the unfixed formatter never fails, but keep the generator independent of parser fixes)
+    let ts = ts_of_ns(t).unwrap();
+    fmt_prec(&ts, prec)
+}
+
+fn gen_ts(rng: &mut Rng, tier: Tier, n: usize) -> Vec<String> {
+    let mut out = Vec::new();
+    let push_parse = |out: &mut Vec<String>, s: &str| out.push(tagged_bytes("parse", s.as_bytes()));
+    // fixed edge cases
+    for t in [0u128, 1, 999_999_999, NANOS, MAX_NS, MAX_NS - 1, 951_782_400 * NANOS, 951_868_799 * NANOS + 5] {
+        for p in ["none", "0", "1", "3", "6", "9", "12"] {
+            out.push(tagged_nums("fmt", &[p.to_string(), t.to_string()]));
+        }
+        out.push(tagged_nums("to-parts", &[t.to_string()]));
+    }
+    for s in [
+        "1970-01-01T00:00:00Z", "1970-01-01T00:00:00.Z", "1970-01-01T00:00:00.xZ", "1970-00-01T00:00:00.0Z",
+        "1970-01-00T00:00:00.0Z", "1970x01x01x00x00x00x0Z", "1970-01-01T00:00:00.+5Z", "1970-01-01T00:00:00+5Z",
+        "197é-01-01T00:00:00.0Z", "1970-01-01T00:00:0é.0Z", "1970-01-01T00:00:00é0Z", "1970-01-01T00:00:00.é0Z",
+        "+970-01-01T00:00:00.0Z", "1970-+1-01T00:00:00.0Z", "1970-01-01t00:00:00.0Z", "1970-01-01T00:00:00.0z",
+        "1970-01-01 00:00:00.0Z", "1970-01-01T00:00:00.0", "1970-01-01T00:00:00", "1970-01-01T00:00:0Z",
+        "1969-12-31T23:59:59.999999999Z", "9999-12-31T23:59:59.999999999Z", "9999-12-31T23:59:60.0Z",
+        "2024-02-29T12:00:00.5Z", "2023-02-29T12:00:00.5Z", "2024-13-01T00:00:00.0Z", "2024-12-32T00:00:00.0Z",
+        "2024-01-01T24:00:00.0Z", "2024-01-01T00:60:00.0Z", "2024-01-01T00:00:60.0Z", "2024-99-99T99:99:99.999999999Z",
+        "0000-01-01T00:00:00.0Z", "2024-01-01T00:00:00.0000000000Z", "2024-01-01T00:00:00.000000000Z",
+        "2024-01-01T00:00:00.00000000000000000000000000Z", "2024-01-01T00:00:00.000+10", "", "Z", "0",
+        "Thursday, September 12, 2024", "2024-01-01T00:00:00,5Z", "2024-01-01T00:00:00.5ZZ", " 2024-01-01T00:00:00.5Z",
+        "2024-01-01T00:00:00.5Z ", "2024-1-1T0:0:0.5Z", "２０２４-01-01T00:00:00.5Z",
+    ] {
+        push_parse(&mut out, s);
+    }
+    for (y, m, d) in [(1970u32, 1u32, 0u32), (1970, 0, 1), (1970, 0, 0), (2000, 13, 32), (1969, 12, 32), (1900, 1, 1),
+        (1899, 12, 31), (0, 1, 1), (65535, 255, 255), (2038, 12, 31), (2039, 1, 1), (2000, 2, 29), (2100, 2, 29), (9999, 12, 31)] {
+        out.push(tagged_nums("from-parts", &[y, m, d, 25, 61, 61, 1_000_000_000].map(|x| x.to_string())));
+        out.push(tagged_nums("from-parts", &[y, m, d, 0, 0, 0, 0].map(|x| x.to_string())));
+        out.push(tagged_nums("from-parts", &[y, m, d, 23, 59, 59, 999_999_999].map(|x| x.to_string())));
+    }
+    // systematic sweep of short strings at every offset of three valid texts
+    let sweeps = if tier == Tier::Thorough { usize::MAX } else { n / 8 };
+    for valid in ["2024-02-29T23:59:58.123456789Z", "1970-01-01T00:00:00Z", "9999-12-31T23:59:59.5Z"] {
+        let per = (TS_ALPHABET.len() + TS_ALPHABET.len() * TS_ALPHABET.len()) * (valid.len() + 1);
+        let count = per.min(sweeps);
+        let stride = (per / count.max(1)).max(1);
+        let mut i = rng.usize(stride);
+        while i < per {
+            if let Some(s) = sweep(valid, TS_ALPHABET, i) {
+                push_parse(&mut out, &s);
+            }
+            i += stride;
+        }
+    }
+    while out.len() < n {
+        let t = interesting_instant(rng);
+        match rng.below(16) {
+            0 | 1 | 2 => out.push(Sexp::tagged("fmt", vec![random_prec(rng), Sexp::num(t)]).to_string()),
+            3 => out.push(tagged_nums("to-parts", &[t.to_string()])),
+            4 => {
+                // two instants, often close together
+                let u = match rng.below(4) {
+                    0 => interesting_instant(rng),
+                    1 => t.saturating_add(rng.below(3) as u128 * 10u128.pow(rng.below(10) as u32)).min(MAX_NS),
+                    2 => t.saturating_sub(rng.below(3) as u128 * 10u128.pow(rng.below(14) as u32)),
+                    _ => (t + 86400 * NANOS * rng.below(400) as u128).min(MAX_NS),
+                };
+                out.push(Sexp::tagged("ord", vec![random_prec(rng), Sexp::num(t), Sexp::num(u)]).to_string());
+            }
+            5 | 6 => {
+                // from_parts on arbitrary parts, mostly near valid
+                let ts = ts_of_ns(t).unwrap();
+                let p = ts.to_parts();
+                let mut f = [p.years as u64, p.months as u64, p.days as u64, p.hours as u64, p.minutes as u64, p.seconds as u64, p.nanos as u64];
+                let lim = [65535u64, 255, 255, 255, 255, 255, u32::MAX as u64];
+                for _ in 0..rng.below(3) {
+                    let i = rng.usize(7);
+                    f[i] = match rng.below(5) {
+                        0 => 0,
+                        1 => lim[i],
+                        2 => f[i].saturating_add(1).min(lim[i]),
+                        3 => f[i].saturating_sub(1),
+                        _ => rng.below(lim[i].min(if i == 0 { 12000 } else if i == 6 { u32::MAX as u64 } else { 70 }) + 1),
+                    };
+                }
+                out.push(tagged_nums("from-parts", &f.map(|x| x.to_string())));
+            }
+            7 | 8 => {
+                // a formatted instant with one field overwritten by other digits
+                let prec = Some(rng.usize(10));
+                let mut b = fmt_text(t, prec).into_bytes();
+                let (a, w) = *rng.pick(&[(0usize, 4usize), (5, 2), (8, 2), (11, 2), (14, 2), (17, 2)]);
+                let v = match rng.below(4) {
+                    0 => 0,
+                    1 => 10u64.pow(w as u32) - 1,
+                    _ => rng.below(10u64.pow(w as u32)),
+                };
+                let v = if w == 2 && rng.bool() { *rng.pick(&[0u64, 1, 12, 13, 23, 24, 28, 29, 30, 31, 32, 59, 60, 61]) } else { v };
+                b[a..a + w].copy_from_slice(format!("{:0w$}", v, w = w).as_bytes());
+                out.push(tagged_bytes("parse", &b));
+            }
+            9 | 10 | 11 => {
+                let prec = if rng.chance(1, 8) { None } else { Some(rng.usize(10)) };
+                let text = fmt_text(t, prec);
+                if rng.chance(1, 5) {
+                    push_parse(&mut out, &text);
+                } else {
+                    let s = near_miss(rng, &text, TS_ALPHABET);
+                    push_parse(&mut out, &s);
+                }
+            }
+            12 => {
+                // fraction of every length 0..12 made of arbitrary digits / one non-digit
+                let k = rng.usize(13);
+                let mut frac: String = (0..k).map(|_| (b'0' + rng.below(10) as u8) as char).collect();
+                if k > 0 && rng.chance(1, 4) {
+                    let i = rng.usize(k);
+                    frac.replace_range(i..i + 1, *rng.pick(TS_ALPHABET));
+                }
+                let head = &fmt_text(t, Some(0))[..19];
+                let s = match rng.below(4) {
+                    0 => format!("{}{}Z", head, frac),
+                    _ => format!("{}.{}Z", head, frac),
+                };
+                push_parse(&mut out, &s);
+            }
+            _ => {
+                let len = if rng.bool() { rng.range(18, 31) as usize } else { rng.usize(65) };
+                let mut s = random_chars(rng, TS_BYTES, len);
+                if rng.bool() {
+                    s.push('Z');
+                }
+                push_parse(&mut out, &s);
             }
         }
     }
